@@ -459,8 +459,9 @@ def run_coqchk(rep, prop):
     t0 = time.time()
     r = subprocess.run("ulimit -s unlimited 2>/dev/null; timeout 900 coqchk -silent -o -Q %s Verif Verif.Props.%s" % (COQ, prop),
                        shell=True, capture_output=True, text=True)
-    ok = r.returncode == 0 and "type-in-type: <none>" in r.stdout and "unsafe (co)fixpoints: <none>" in r.stdout \
-        and "positivity is assumed: <none>" in r.stdout
+    out = r.stdout + r.stderr
+    ok = r.returncode == 0 and "type-in-type: <none>" in out and "unsafe (co)fixpoints: <none>" in out \
+        and "positivity is assumed: <none>" in out
     rep.coverage["coqchk"] = {"ok": ok, "seconds": round(time.time() - t0, 1),
                               "cmd": "coqchk -silent -o -Q coq Verif Verif.Props.%s" % prop}
     rep.coverage["obligations"] = rep.coverage.get("obligations", 0) + 1
